@@ -428,9 +428,12 @@ def run(ctx):
                 "subsets/permutations or the whole sequence, record ranges [a:s:b], 0..3 clauses col OP const / "
                 "col OP col (same kind), each on 3 backends (numpy structured array, IterData, CSV file) x 3 entries "
                 "(raw .dods URL decoded independently, open_url(url?ce), seq[cond][cols][range] operators); "
+                "the operators entry varies step order (3) and conjunction vs one filter per clause; plus a fixed block of "
+                "column-vs-column clauses between different columns x 6 operators x 3 backends x 4 entries x {whole, columns}; "
                 "non-trivial = the constraint has a projection, a range or a clause; distinct by (backend, table, CE)")
     ctx.assumptions = ["the empty string travels as one NUL byte in DAP2 sequences (C01/C05 finding) and is read back as ''",
-                       "parse_ce's projection tokeniser and parse_hyperslab are tied by correspondence/C03, not by a C04 theorem"]
+                       "URL quoting/unquoting of the query is an identity on the generated characters (not modelled)",
+                       "the client's decoding of the answer (unpack_sequence) is exercised by the oracle only"]
     ctx.proof_phase()
     P = load()
     explore(ctx, P, ctx.tier)
